@@ -131,20 +131,28 @@ def gen_program(rng, cls):
             k = rng.randint(2, 4)
             rets = [f"_ret.{i}" for i in range(k)]
             defs = [[r, gen_tree(rng, inputs, rng.randint(0, 3), consts=rng.random() < 0.3)] for r in rets]
-        elif cls == "c":
+        elif cls in ("c", "c1"):
+            # straight-line programs: named intermediates (never `__…`), later definitions read inputs and
+            # earlier names; c1 = every intermediate is read exactly once, c = any number of times
             k = rng.randint(1, 3)
-            names = [rng.choice([f"m{i}", f"__m{i}"]) if rng.random() < 0.0 else f"m{i}" for i in range(k)]
             defs = []
             leaves = list(inputs)
-            pending = []
-            for nm in names:
-                defs.append([nm, gen_tree(rng, leaves + pending[:0], rng.randint(1, 3))])
-                pending.append(nm)
-            # final expression uses every intermediate exactly once
-            body = gen_tree(rng, inputs, rng.randint(1, 3))
-            for nm in pending:
-                body = [rng.choice(["and", "or", "xor"]), body, ["sym", nm]] if rng.random() < 0.7 else \
-                    [rng.choice(["and", "or"]), ["not", ["sym", nm]], body]
+            names = []
+            for i in range(k):
+                nm = rng.choice([f"m{i}", f"t{i}", f"_ret.{i}"])
+                pool = leaves + (names if cls == "c" else [])
+                defs.append([nm, gen_tree(rng, pool, rng.randint(0, 3), consts=rng.random() < 0.2)])
+                names.append(nm)
+            if cls == "c":
+                body = gen_tree(rng, inputs + names + names, rng.randint(1, 3), consts=rng.random() < 0.2)
+                for nm in names:
+                    if rng.random() < 0.5:
+                        body = [rng.choice(["and", "or", "xor"]), body, ["sym", nm]]
+            else:
+                body = gen_tree(rng, inputs, rng.randint(1, 3))
+                for nm in names:
+                    body = [rng.choice(["and", "or", "xor"]), body, ["sym", nm]] if rng.random() < 0.7 else \
+                        [rng.choice(["and", "or"]), ["not", ["sym", nm]], body]
             defs.append(["_ret", body])
             rets = ["_ret"]
         else:
